@@ -1,13 +1,39 @@
 ------------------------------ MODULE MCImporter ------------------------------
-(* Exhaustive configurations for Importer.tla: every row set over two scenario *)
-(* agents and one unrelated agent, two steps, both realtime/imported mixes.     *)
+(* Exhaustive configurations for Importer.tla (posed by nested quantifiers in the initial predicate: the set of   *)
+(* configurations is never materialised).                                                                          *)
+(*  Ephemeris side, EphInit(N, Unrelated): two scenario agents (a target, a sensor; one engine), N steps, EVERY   *)
+(*  set of Epoch rows of the importer database (all present / a hole across all agents / every other epoch only / *)
+(*  the database ends early / empty), EVERY set of ephemeris rows over the scenario's and the unrelated agents    *)
+(*  hanging on those epochs (supersets, exact sets, subsets: gaps for single agents), every imported / realtime   *)
+(*  mix, a target that joins mid-run, no observation rows or one on every epoch.                                      *)
+(*  Observation side, ObsInit: two targets, two sensors, one engine or two engines with EVERY assignment of the   *)
+(*  sensors to the engines and EVERY family of target lists that covers the targets (disjoint networks, shared    *)
+(*  targets, an engine whose sensor observed a target only the other engine tracks: cross-engine observations),   *)
+(*  every set of observation rows over both epochs, with and without an imported agent.                           *)
 EXTENDS Importer
 AllAgents == {"t1", "s1"}
-Unrelated == {"x1", "x2"}
-RowUniverse == (AllAgents \cup Unrelated) \X (1..2)
-ObsUniverse == {<<1, "t1", "s1">>, <<2, "t1", "s1">>}
-MCConfigs ==
-  {[agents |-> AllAgents, imported |-> imp, targets |-> {"t1"}, rows |-> rows, obs |-> obs, nsteps |-> 2, born |-> born] :
-     imp \in {{"t1"}, {"s1"}, {"t1", "s1"}}, rows \in SUBSET RowUniverse, obs \in SUBSET ObsUniverse,
-     born \in {[a \in AllAgents |-> 0], [a \in AllAgents |-> IF a = "t1" THEN 2 ELSE 0]}}
+EphInit(N, Unrelated) ==
+  \E ep \in SUBSET (1..N) :
+   \E imp \in {{"t1"}, {"s1"}, {"t1", "s1"}}, rows \in SUBSET ((AllAgents \cup Unrelated) \X ep),
+      obs \in {{}, {<<j, "t1", "s1">> : j \in ep}},
+      born \in {[a \in AllAgents |-> 0], [a \in AllAgents |-> IF a = "t1" THEN 2 ELSE 0]} :
+     InitWith([agents |-> AllAgents, imported |-> imp, targets |-> {"t1"}, epochs |-> ep, rows |-> rows, obs |-> obs,
+               nsteps |-> N, born |-> born,
+               engines |-> {1}, sensorOf |-> [s \in {"s1"} |-> 1], tracks |-> [e \in {1} |-> {"t1"}]])
+
+TB == {"t1", "t2"}
+SB == {"s1", "s2"}
+ObsB == ({1} \X TB \X SB) \cup {<<2, "t1", "s2">>, <<2, "t2", "s1">>}
+ObsInit ==
+  \E eng \in {{1}, {1, 2}} :
+   \E imp \in {{}, {"t1"}}, obs \in SUBSET ObsB, so \in [SB -> eng],
+      tr \in {f \in [eng -> SUBSET TB] : UNION {f[e] : e \in eng} = TB} :
+     InitWith([agents |-> TB \cup SB, imported |-> imp, targets |-> TB, epochs |-> 1..2, rows |-> imp \X (1..2), obs |-> obs,
+               nsteps |-> 2, born |-> [a \in TB \cup SB |-> 0], engines |-> eng, sensorOf |-> so, tracks |-> tr])
+
+MCInitQuick == EphInit(2, {"x1", "x2"}) \/ EphInit(3, {"x1"}) \/ ObsInit
+MCInitThorough == EphInit(2, {"x1", "x2"}) \/ EphInit(4, {"x1"}) \/ EphInit(3, {"x1", "x2"}) \/ ObsInit
+\* the part of the space in which each named deviation must be refuted
+MCInitCounts == EphInit(2, {"x1", "x2"})
+MCInitEpochs == EphInit(3, {"x1"})
 =============================================================================
